@@ -39,6 +39,7 @@ var instrList = []instrFile{
 	{"internal/decoder/jitdec/decoder.go", modeAll},
 	{"internal/encoder/encoder.go", modeAll},
 	{"internal/encoder/pools_amd64.go", modeAll},
+	{"internal/encoder/compiler.go", modeShim}, // only for the map-range rewrite
 	{"internal/encoder/stream.go", modeAll},
 	{"internal/encoder/vars/stack.go", modeAll},
 	{"internal/encoder/vars/cache.go", modeAll},
@@ -51,6 +52,7 @@ var instrList = []instrFile{
 	{"internal/decoder/optdec/native.go", modeSync},
 	{"internal/optcaching/fcache.go", modeSync},
 	{"internal/jit/backend.go", modeQuiet},
+	{"internal/jit/assembler_amd64.go", modeAll}, // restricted by onlyFuncs
 	{"loader/register.go", modeAll},
 	{"loader/loader_latest.go", modeAll},
 	{"ast/node.go", modeAll},
@@ -62,9 +64,26 @@ var instrList = []instrFile{
 	{"ast/api.go", modeAll},
 }
 
+// onlyFuncs: for these files only the listed functions get yield points
+// (the per-instruction emitters would drown every schedule).
+var onlyFuncs = map[string]map[string]bool{
+	"internal/jit/assembler_amd64.go": {"build": true, "release": true, "resolve": true, "validate": true, "assemble": true, "Load": true, "Export": true, "init": true, "Init": true},
+}
+
+// mapRange: `range <expr>` over Go maps in the compile paths (N7), rewritten to
+// iterate simrt.MapKeys(<expr>) (sorted, then permuted by the tape).
+var mapRange = map[string]map[string]bool{
+	"internal/decoder/jitdec/decoder.go": {"vtm": true, "compiler.rec": true, "pendings": true},
+	"internal/encoder/pools_amd64.go":    {"vtm": true, "compiler.rec": true, "pendings": true},
+	"internal/encoder/compiler.go":       {"vtm": true, "sub": true},
+}
+
 // entryOnly: functions that get a single yield at entry (file:func).
 var entryOnly = map[string]bool{
 	"internal/caching/pcache.go:copy": true,
+	// range over a Go map: per-element yields would make the trace depend on map order
+	"internal/jit/assembler_amd64.go:resolve":  true,
+	"internal/jit/assembler_amd64.go:validate": true,
 }
 
 type edit struct {
@@ -157,6 +176,34 @@ func (in *instrumenter) instrument(f instrFile) error {
 		}
 		return true
 	})
+	// map ranges
+	if mr := mapRange[f.Rel]; mr != nil {
+		ast.Inspect(file, func(n ast.Node) bool {
+			rs, ok := n.(*ast.RangeStmt)
+			if !ok || rs.Key == nil || rs.Tok != token.DEFINE {
+				return true
+			}
+			xs := string(data[off(rs.X.Pos()):off(rs.X.End())])
+			if !mr[xs] {
+				return true
+			}
+			kname := "zzk"
+			if id, ok := rs.Key.(*ast.Ident); ok && id.Name != "_" {
+				kname = id.Name
+			}
+			helper := "simrt.TypeKeys"
+			if xs == "pendings" {
+				helper = "simrt.MapKeys" // keyed by *rt.GoType
+			}
+			add(off(rs.Key.Pos()), off(rs.X.End())-off(rs.Key.Pos()), "_, "+kname+" := range "+helper+"("+xs+")")
+			if rs.Value != nil {
+				if id, ok := rs.Value.(*ast.Ident); ok && id.Name != "_" {
+					add(off(rs.Body.Lbrace)+1, 0, " "+id.Name+" := "+xs+"["+kname+"]; _ = "+id.Name+";")
+				}
+			}
+			return true
+		})
+	}
 	// yields
 	if f.Mode != modeShim && f.Mode != modeQuiet {
 		touches := func(s ast.Stmt) bool {
@@ -214,6 +261,9 @@ func (in *instrumenter) instrument(f instrFile) error {
 				continue
 			}
 			if hasDirective(fd.Doc, "nosplit", "norace", "nowritebarrier", "systemstack") {
+				continue
+			}
+			if of := onlyFuncs[f.Rel]; of != nil && !of[fd.Name.Name] {
 				continue
 			}
 			if entryOnly[f.Rel+":"+fd.Name.Name] {
